@@ -8,7 +8,7 @@ history of the sender run so far). What the applications see (`writes`, `readsOn
 sender run and the `delivs` of the receiver run.
 -/
 namespace NetSys
-open SenderProofs
+open SenderProofs SenderTsn
 
 /-- the sender operations of a NetSys run (depends on the sender state only) -/
 def sndOps (P : Params) : Sender.St → List Op → List Sender.Op
